@@ -259,6 +259,15 @@ def decide(cfg, tier, seed, problems, fam_results, assumptions_info, obligations
                        "correspondence_differences": [{"family": f, **d} for f, d in diffs[:5]],
                        "searched": [{"family": fr["family"], "cases": fr["n"], "impl_run": fr["impl_run"]} for fr in fam_results]}
             violations.append((payload, " no-failing-input-found"))
+            # a short diagnosis on stdout, so that a log of this run is enough to see what differed
+            for st, w, d in problems[:3]:
+                log(f"no longer checks [{st}]: {w}")
+            for f, d in diffs[:2]:
+                log(f"difference in family {f} ({d.get('label')}): case={clip(d.get('case'), 300)}")
+                log(f"   impl ={clip(d.get('impl'), 600)}")
+                log(f"   model={clip(d.get('model'), 600)}")
+                if d.get("note"):
+                    log(f"   note ={clip(str(d.get('note')), 300)}")
     # evidence
     evals = sum(fr["n"] for fr in fam_results)
     dn = sum(fr["distinct_nontrivial"] for fr in fam_results)
